@@ -6,3 +6,9 @@ pub use chunks::{
     process_slice_by_chunks, process_stream_by_chunks,
 };
 pub use exact::{ExactSizeStream, FixedLength};
+
+#[cfg(all(test, feature = "ipa-verif"))]
+#[allow(dead_code, unused_imports, clippy::all, clippy::pedantic)]
+mod ipa_verif_hook {
+    include!(concat!(env!("IPA_VERIF_DIR"), "/hooks/hstream.rs"));
+}
